@@ -16,7 +16,7 @@ pub fn make_cfg(seed: u64, idx: u64) -> gen_::Cfg {
     let users = ["alice", "bob", "carol", "dave", "eve", "mallory", "trent"];
     let groups = ["staff", "wheel", "adm", "users", "audio", "video"];
     let n = 2 + (idx % 5) as usize;
-    let mut used: Vec<String> = cfg.files.iter().map(|f| f.dest.trim_start_matches('.').to_string()).collect();
+    let mut used: Vec<String> = cfg.files.iter().map(|f| gen_::installed_path(&f.dest)).collect();
     for k in 0..n {
         let mut f = gen_::rand_file(&mut rng, &mut used, 200);
         f.user = Some(users[(k + idx as usize) % users.len()].to_string());
